@@ -172,7 +172,7 @@ package interceptor
 // decoded with the standard serializer or the repair changed it (and the repaired events are re-encoded). Defect D13
 // (fixed): a blob whose invalid UTF-8 was not in a failure message was returned unchanged with a nil error.
 //@ contract translateOneDataBlob
-//@   props C17
+//@   props C17 C16 C13
 //@   ensures @never_silently_undecoded: (old(blob) != nil && old(len(blob.Data)) > 0 && retErr == nil) ==> (old(blobDecodeErr(blob)) == nil || changed)
 //@   ensures @every_blob_is_visited: (old(blob) != nil && old(len(blob.Data)) > 0 && retErr == nil) ==> old(blob).visited
 //@   ensures @match_needs_visit: !(old(blob) != nil && old(len(blob.Data)) > 0) ==> result == old(blob) && !matched && !changed && retErr == nil
